@@ -27,7 +27,7 @@ func init() { register(c16{}) }
 func (c16) Meta() core.Meta {
 	return core.Meta{
 		ID: "C16", Level: "exploration",
-		Rule: "case i = f(seed,i): a content drawn from the C02 domain (Map decoded from a generated document), the C03 domain (JSON-shaped value with 2..40 keys/attributes per node) or the C04 domain (MapSeq decoded from a generated document); 6..20 structurally equal copies are built with different insertion orders, make() capacities, deletions of temporary keys, and via Copy / JSON / gob; every encoder entry point (Xml, XmlIndent, Json, Json(safe), JsonIndent, StringIndent, MapSeq.Xml/XmlIndent) is called on every copy and repeatedly. Monitors: all byte strings for one content identical; attributes and child elements in ascending key order according to the std tokenizer; indented == compact as normalised token streams; Writer forms issue exactly one Write with exactly the returned bytes and surface a failing sink's error, Raw forms return the bytes; Maps.XmlString/XmlStringIndent/JsonString/JsonStringIndent (plain and safe) and the File forms equal the per-Map encodings joined by blanks only; retained outputs stay intact. Diversity evidence: the distinct key-iteration orders observed on the input maps are counted. Non-trivial: some node has >=3 keys; distinct by hash(content).",
+		Rule:        "case i = f(seed,i): a content drawn from the C02 domain (Map decoded from a generated document), the C03 domain (JSON-shaped value with 2..40 keys/attributes per node) or the C04 domain (MapSeq decoded from a generated document); 6..20 structurally equal copies are built with different insertion orders, make() capacities, deletions of temporary keys, and via Copy / JSON / gob; every encoder entry point (Xml, XmlIndent, Json, Json(safe), JsonIndent, StringIndent, MapSeq.Xml/XmlIndent) is called on every copy and repeatedly. Monitors: all byte strings for one content identical; attributes and child elements in ascending key order according to the std tokenizer; indented == compact as normalised token streams; Writer forms issue exactly one Write with exactly the returned bytes and surface a failing sink's error, Raw forms return the bytes; Maps.XmlString/XmlStringIndent/JsonString/JsonStringIndent (plain and safe) and the File forms equal the per-Map encodings joined by blanks only; retained outputs stay intact. Diversity evidence: the distinct key-iteration orders observed on the input maps are counted. Non-trivial: some node has >=3 keys; distinct by hash(content).",
 		Assumptions: []string{"Go re-randomises map iteration on every range; the monitor records the orders it saw rather than assuming them"},
 		Anchors:     []string{"Map.Xml", "Map.XmlIndent", "Map.XmlWriter", "Map.XmlIndentWriter", "MapSeq.Xml", "MapSeq.XmlIndent", "MapSeq.XmlWriter", "MapSeq.XmlIndentWriter", "Map.Json", "Map.JsonIndent", "Map.JsonWriter", "Map.JsonWriterRaw", "Map.JsonIndentWriter", "Map.JsonIndentWriterRaw", "Maps.XmlString", "Maps.XmlStringIndent", "Maps.JsonString", "Maps.JsonStringIndent", "Maps.XmlFile", "Maps.XmlFileIndent", "Maps.JsonFile", "Maps.JsonFileIndent", "Map.StringIndent", "attrList.Less", "elemList.Less", "elemListSeq.Less"},
 		Floors:      map[string]int64{"encodings-compared": 100000, "writer-calls-logged": 5000, "failing-sink": 1000, "maps-forms": 500, "order-checked-elements": 20000},
@@ -42,7 +42,7 @@ func (c16) Cases(tier string, race bool) int {
 	if tier == "thorough" {
 		return 60000
 	}
-	return 2400
+	return 4000
 }
 
 // rebuild returns a structurally equal copy built in a different way.
